@@ -32,6 +32,8 @@ pub struct Ctx<M: AlignMarker> {
     pub local_addr: usize,
     pub in_tls: bool,
     pub check_pins: bool,
+    /// op numbering offset (TLS destructor programs continue after the main program)
+    pub op_base: u32,
 }
 
 /// payload panics injected by the workload carry this
@@ -97,6 +99,7 @@ impl<M: AlignMarker> Ctx<M> {
             local_addr: 0,
             in_tls: false,
             check_pins: true,
+            op_base: 0,
         })
     }
 
@@ -241,7 +244,8 @@ impl<M: AlignMarker> Ctx<M> {
     }
 
     pub fn exec_all(&mut self, ops: &[Op]) {
-        for o in ops {
+        for (i, o) in ops.iter().enumerate() {
+            crate::sched::set_op(self.op_base + i as u32);
             user_yield();
             self.check_pin_state("before op");
             self.exec(*o);
@@ -381,7 +385,12 @@ impl<M: AlignMarker> Ctx<M> {
                 if a >= NRC || self.rcs[a].is_some() {
                     return;
                 }
-                let (node, id, rank) = self.new_node(Origin::New);
+                let (node, id, mut rank) = self.new_node(Origin::New);
+                if c != 0 {
+                    // directed templates fix the rank class so that their edges are always legal
+                    rank = (rank & 0xFFFF_FFFF_FFFF) | ((c as u64 & 0xFFFF) << 48);
+                    shadow().objs[id as usize].rank = rank;
+                }
                 // optional plain-Rc edge, only towards a higher-ranked node
                 if b < NRC {
                     if let Some(src) = self.rcs[b].as_ref() {
@@ -679,7 +688,7 @@ impl<M: AlignMarker> Ctx<M> {
                 let Some((cell, owner)) = self.cell(o.a) else { return };
                 let rc = if b < NRC { self.rcs[b].take() } else { None }.unwrap_or_else(Rc::null);
                 let w = circ::verif::rc_word(&rc);
-                if !self.edge_allowed(owner, w) {
+                if d == 0 && !self.edge_allowed(owner, w) {
                     if !rc.is_null() || rc.tag() != 0 {
                         self.rcs[b] = Some(rc);
                     }
@@ -697,7 +706,7 @@ impl<M: AlignMarker> Ctx<M> {
                 let Some((cell, owner)) = self.cell(o.a) else { return };
                 let rc = self.rcs[b].take().unwrap_or_else(Rc::null);
                 let w = circ::verif::rc_word(&rc);
-                if !self.edge_allowed(owner, w) {
+                if c == 0 && !self.edge_allowed(owner, w) {
                     self.rcs[b] = Some(rc);
                     return;
                 }
@@ -731,13 +740,13 @@ impl<M: AlignMarker> Ctx<M> {
                 let Some((cell, owner)) = self.cell(o.a) else { return };
                 let des = self.rcs[c].take().unwrap_or_else(Rc::null);
                 let dw = circ::verif::rc_word(&des);
-                if !self.edge_allowed(owner, dw) {
+                if d & 2 == 0 && !self.edge_allowed(owner, dw) {
                     self.rcs[c] = Some(des);
                     return;
                 }
                 let ew = circ::verif::snapshot_word(&exp);
                 let inv = sim().seq;
-                let weak = d != 0;
+                let weak = d & 1 != 0;
                 let res = if weak { cell.compare_exchange_weak(exp, des, SeqCst, SeqCst, g) } else { cell.compare_exchange(exp, des, SeqCst, SeqCst, g) };
                 let caddr = circ::verif::atomic_rc_addr(cell);
                 match res {
@@ -1071,7 +1080,8 @@ impl<M: AlignMarker> Ctx<M> {
                 let ob = &sh.objs[oi];
                 if ob.pop > 0 {
                     let det = format!("{} succeeded on #{} whose destruction ran at seq {} ({} path): the returned reference reads a dropped object", how, o, ob.pop_seq, crate::shadow::path_name(ob.depth));
-                    sim().violation("C05", "upgrade-after-destruct", &format!("upgrade-after-destruct/{}/{}", crate::shadow::path_name(ob.depth), how), &det);
+                    let props = if how.starts_with("WeakSnapshot") { "C05,C02" } else { "C05,C01" };
+                    sim().violation(props, "upgrade-after-destruct", &format!("upgrade-after-destruct/{}/{}", crate::shadow::path_name(ob.depth), how), &det);
                 }
                 if let Some(f) = ob.first_failed_upgrade {
                     if f < inv {
@@ -1125,7 +1135,8 @@ pub fn run_thread<M: AlignMarker>(tid: usize, world: &'static World<M>, prog: &T
         sim().fault("tls_order_after_handle");
     }
     let mut tls_pending = prog.tls_mode == 2;
-    for o in &prog.ops {
+    for (i, o) in prog.ops.iter().enumerate() {
+        crate::sched::set_op(i as u32);
         user_yield();
         ctx.check_pin_state("before op");
         ctx.exec(*o);
@@ -1136,6 +1147,7 @@ pub fn run_thread<M: AlignMarker>(tid: usize, world: &'static World<M>, prog: &T
             sim().fault("tls_order_before_handle");
         }
     }
+    crate::sched::set_op(prog.ops.len() as u32);
     if prog.tls_mode != 0 {
         let tls_ops = prog.tls_ops.clone();
         let leak = prog.exit_mode == 1;
@@ -1144,11 +1156,13 @@ pub fn run_thread<M: AlignMarker>(tid: usize, world: &'static World<M>, prog: &T
         }
         let mut tctx = if leak { ctx } else { Ctx::new(tid, world) };
         tctx.in_tls = true;
+        tctx.op_base = prog.ops.len() as u32 + 1;
         let f: Box<dyn FnOnce()> = Box::new(move || {
             sim().fault("tls_api");
             // guards that were leaked into TLS die with the thread: drop them first so that the
             // model and the participant agree, then run the destructor's own program
             tctx.exec_all(&tls_ops);
+            crate::sched::set_op(tctx.op_base + tls_ops.len() as u32);
             tctx.drop_all();
         });
         TLSP.with(|t| t.borrow_mut().0 = Some(f));
